@@ -65,6 +65,7 @@ type op10 struct {
 	Fault  string `json:"fault,omitempty"`  // "", error, revert, plus, minus, noop
 	NoKey  bool   `json:"no_key,omitempty"` // toerc20: the EVM does not support the receiver's key type
 	Enable bool   `json:"enable,omitempty"`
+	Parts  int    `json:"parts,omitempty"` // tonative: the EVM transaction calls swapToNative this many times (one log each)
 }
 
 type m10 struct {
@@ -210,6 +211,7 @@ func (m *m10) Next(t *rapid.T) op10 {
 		if rapid.IntRange(0, 19).Draw(t, "zero") == 0 {
 			op.Amount = "0"
 		}
+		op.Parts = rapid.SampledFrom([]int{1, 1, 1, 2, 3}).Draw(t, "parts")
 		return op
 	case k < 78: // plain native mint / burn by the owner (legitimate changes of the sum)
 		op := op10{Kind: rapid.SampledFrom([]string{"mint", "burn"}).Draw(t, "mb"), Tok: rapid.IntRange(0, 2).Draw(t, "tok")}
@@ -472,9 +474,27 @@ func (m *m10) Apply(op op10) error {
 			if tk.contract == nil {
 				return fmt.Errorf("no contract")
 			}
-			receipt, ok := c.EVMState.SwapToNativeReceipt(*tk.contract, holder, toStr, amount)
-			if !ok {
-				return fmt.Errorf("evm: execution reverted")
+			// one EVM transaction that calls swapToNative `parts` times: the receipt carries one log per call
+			parts := op.Parts
+			if parts < 1 || amount.Cmp(big.NewInt(int64(parts))) < 0 {
+				parts = 1
+			}
+			receipt := &ethtypes.Receipt{}
+			rest := new(big.Int).Set(amount)
+			for i := 0; i < parts; i++ {
+				part := new(big.Int).Quo(amount, big.NewInt(int64(parts)))
+				if i == parts-1 {
+					part = rest
+				}
+				rest = new(big.Int).Sub(rest, part)
+				r, ok := c.EVMState.SwapToNativeReceipt(*tk.contract, holder, toStr, part)
+				if !ok {
+					return fmt.Errorf("evm: execution reverted")
+				}
+				receipt.Logs = append(receipt.Logs, r.Logs...)
+			}
+			if parts > 1 {
+				m.cls["tonative-multi-log"] = true
 			}
 			msg := ethtypes.NewMessage(holder, tk.contract, 0, big.NewInt(0), 3000000, big.NewInt(0), big.NewInt(0), big.NewInt(0), nil, ethtypes.AccessList{}, false)
 			return e.K.Token.Hooks().PostTxProcessing(ctx, msg, receipt)
